@@ -85,6 +85,7 @@ type vHnswSys struct {
 }
 
 func (s *vHnswSys) Reset() {
+	vResetGlobals()
 	idx, err := NewHNSWIndex(s.cfg.Dim, s.cfg.Metric, s.cfg.M, s.cfg.Ef, s.cfg.Ef)
 	if err != nil {
 		panic(err)
